@@ -47,6 +47,8 @@ def created_full := @MsiProofs.Created.created_full
 def finish_core := @MsiProofs.FullHistory.finish_core
 /-- one API call (statement, `create_table`, save) keeps every invariant -/
 def step_full := @MsiProofs.Lifecycle.step_full
+/-- `save` then close-and-reopen is admissible: sessions chain -/
+def saved_after_save := @MsiProofs.Lifecycle.saved_after_save
 /-- every state reachable from a state satisfying the invariants satisfies them -/
 def history_full := @MsiProofs.Lifecycle.history_full
 /-- `create` = base state + `create_table("_Validation")` + flush -/
